@@ -62,6 +62,12 @@ func Run(c *Case, fn func()) (out *Outcome) {
 				out.Assumed = true
 				return
 			}
+			for _, name := range st.order {
+				if st.open[name] && st.classes[name] {
+					out.Known = append(out.Known, "panic|"+name)
+					return
+				}
+			}
 			out.Panic = fmt.Sprint(r)
 		}
 	}()
